@@ -309,6 +309,21 @@ pub fn dispatch(cmd: &str, rest: &[String], tier: &str, seed: u64) -> Option<i32
         "c09" => emit(big_stack(move || checks::run_c09(&tier, seed))),
         "c19" => emit(big_stack(move || checks::run_c19(&tier, seed))),
         "c02-loc" => emit(big_stack(move || checks::run_c02_loc(&tier, seed))),
+        "c17-pragma" => emit(big_stack(move || checks::run_c17_pragma(&tier, seed))),
+        "c17-pragma-case" => {
+            if rest.len() < 3 {
+                eprintln!("usage: vxn c17-pragma-case <detector> @src:<text with comment> @src:<text without>");
+                return Some(2);
+            }
+            let d = match Det::from_name(&rest[0]) {
+                Some(d) => d,
+                None => return Some(2),
+            };
+            let (a, b) = (crate::arg_or_file(&rest[1]), crate::arg_or_file(&rest[2]));
+            let (ok, msg) = big_stack(move || checks::c17_pragma_pair(d, &a, &b));
+            println!("{}", msg);
+            Some(if ok { 0 } else { 1 })
+        }
         "det-case" => {
             if rest.len() < 3 {
                 eprintln!("usage: vxn det-case <c02-loc|c04|c05|c06|c07|c08|c09|c19> <detector> @src:<text>|@file:<path>");
